@@ -92,7 +92,7 @@ Init == /\ InitDesc /\ Good(desc)
         /\ ta = <<>> /\ tb = <<>> /\ da = <<>> /\ db = <<>> /\ r = <<>> /\ pc = 0 /\ hist = <<>>
 
 Log(a, arg, e) == hist' = Append(hist, [act |-> a, arg |-> arg, expect |-> e])
-sd == Seed * 1000 + desc.k
+sd == desc.k
 
 ModeA == IF desc.fam = "psd" \/ (desc.fam = "bin" /\ desc.op = "add" /\ desc.b \in RootLike) THEN 1 ELSE ModeOf(desc.a)
 ModeB == IF desc.fam = "psd" THEN 1 ELSE ModeOf(desc.b)
